@@ -122,6 +122,19 @@ func c02Gen(rt *rapid.T) wProg {
 				actor = 0
 			}
 			p.Ops = append(p.Ops, wOp{K: "del", S: actor, T: "g0", A: "sub", U: gInt(rt, 1, 3, "target")})
+		case x < 85:
+			// everybody leaves the group; a session attaches again at the very moment the idle timer of the
+			// topic fires; then somebody else attaches and publishes: a session which was told it is
+			// attached gets the message
+			for k := range p.Sess {
+				p.Ops = append(p.Ops, wOp{K: "leave", S: k, T: grpRef(k)})
+			}
+			a := gInt(rt, 0, len(p.Sess)-1, "a")
+			b := (a + 1 + gInt(rt, 0, len(p.Sess)-2, "b")) % len(p.Sess)
+			p.Ops = append([]wOp{{K: "lat"}}, p.Ops...) // the store answers at once: the timer's moment is known exactly
+			p.Cfg.Lat = nil
+			p.Ops = append(p.Ops, wOp{K: "sub", S: a, T: grpRef(a), At: "g0", AtUs: gPick(rt, []int{0, 0, 0, 1}, "atus")},
+				wOp{K: "sub", S: b, T: grpRef(b)}, wOp{K: "pub", S: b, T: grpRef(b)}, wOp{K: "pub", S: a, T: grpRef(a)})
 		case x < 88:
 			p.Ops = append(p.Ops, wOp{K: "reload", T: gPick(rt, []string{"g0", "g0", "p1"}, "rt")})
 		case x < 91:
